@@ -412,9 +412,12 @@ class Table(Vector):
 						f"(sanitizes to '{sanitized}'), not '{base_name}'"
 					)
 				
-				# Replace the column at validated index
+				# Replace the column at validated index (store a snapshot, like Table.__init__:
+				# the caller's vector must stay independent of the table)
 				if not isinstance(value, Vector):
 					value = Vector(value)
+				else:
+					value = value.copy()
 				
 				if self._underlying and len(value) != self._length:
 					raise ValueError(
@@ -431,9 +434,12 @@ class Table(Vector):
 			# Regular column lookup by name
 			col_idx = self._column_map.get(attr) or self._column_map.get(attr.lower())
 			if col_idx is not None:
-				# Replace the column in _underlying
+				# Replace the column in _underlying (store a snapshot, like Table.__init__:
+				# the caller's vector must stay independent of the table)
 				if not isinstance(value, Vector):
 					value = Vector(value)
+				else:
+					value = value.copy()
 				
 				# Validate length
 				if self._underlying and len(value) != self._length:
